@@ -531,6 +531,12 @@ pub trait KeyT: PartialEq + Eq + Clone + Borrow<Self::Q> + fmt::Debug + Sized + 
     fn mk(k: u8, tag: u8) -> Self;
     fn kd(&self) -> KD;
     fn with_q<R>(k: u8, f: impl FnOnce(&Self::Q) -> R) -> R;
+    /// A borrowed-form value that is NOT equal to this key (nor to any key of the universe) but whose
+    /// reference *aliases* this stored key in memory - e.g. a proper prefix of a stored `String`'s own
+    /// buffer: same start address, different length. Lookups through it must say "absent".
+    fn alias_probe<R>(&self, _f: impl FnOnce(&Self::Q) -> R) -> Option<R> {
+        None
+    }
 }
 pub trait ValT: PartialEq + Clone + Default + fmt::Debug + Sized + 'static {
     const NAME: &'static str;
@@ -663,6 +669,13 @@ impl KeyT for String {
     }
     fn with_q<R>(k: u8, f: impl FnOnce(&str) -> R) -> R {
         f(STRS[k as usize])
+    }
+    fn alias_probe<R>(&self, f: impl FnOnce(&str) -> R) -> Option<R> {
+        if self.len() > 1 {
+            Some(f(&self[..self.len() - 1]))
+        } else {
+            None
+        }
     }
 }
 impl ValT for String {
